@@ -115,7 +115,7 @@ def param_text(v):
     return num_text(v)
 
 
-def render(model, order, rng, extras=True, metadata=True):
+def render(model, order, rng, extras=True, metadata=True, variant=0):
     ns = model["nodes"]
     names = ["N%d" % (k + 1) for k in range(len(ns))]
     cols = {c[0]: c[1] for c in table_columns(model["table"])}
@@ -124,7 +124,7 @@ def render(model, order, rng, extras=True, metadata=True):
     for k, (cmd, params, ins) in enumerate(ns):
         args = []
         if cmd == "EEMSRead":
-            args += ["InFileName = in.csv", "InFieldName = %s" % ins, "MissingVal = %d" % MISSING]
+            args += ["InFileName = in.csv", "InFieldName = %s" % ins, "MissingVal = %d" % sentinel(model["table"], ins, variant)]
             if cols[ins][0] == "i":
                 args.append("DataType = Integer")
             deps[names[k]] = []
@@ -185,12 +185,26 @@ def _init():
     _W["root"] = core.scratch_dir("mpv-model-")
 
 
-def csv_text(tid):
+def sentinel(tid, colname, variant=0):
+    """the number that marks a missing cell of this column: one that is not among the column's values, drawn from
+    the classic -9999, zero (a falsy number) and small integers (the choice rotates with the column and the variant)"""
+    cols = table_columns(tid)
+    k = [c[0] for c in cols].index(colname)
+    present = {c[0] / c[1] for c in cols[k][1][1] if c[1] != 0}
+    cands = [-9999, 0, 7, -3]
+    for j in range(len(cands)):
+        s = cands[(k + variant + j) % len(cands)]
+        if s not in present:
+            return s
+    return MISSING
+
+
+def csv_text(tid, variant=0):
     cols = table_columns(tid)
     n = len(cols[0][1][1])
     rows = [",".join(c[0] for c in cols)]
     for r in range(n):
-        rows.append(",".join((str(MISSING) if c[1][1][r][1] == 0 else num_text(c[1][1][r])) for c in cols))
+        rows.append(",".join((str(sentinel(tid, c[0], variant)) if c[1][1][r][1] == 0 else num_text(c[1][1][r])) for c in cols))
     return "\n".join(rows) + "\n"
 
 
@@ -201,11 +215,12 @@ def run_one(job):
 
     tracer = _W["tracer"]
     rng = random.Random(seed)
-    src, names, deps = render(model, order, rng)
+    variant = jid % 4
+    src, names, deps = render(model, order, rng, variant=variant)
     wd = os.path.join(_W["root"], "m%d" % jid)
     os.makedirs(wd)
     with open(os.path.join(wd, "in.csv"), "w") as f:
-        f.write(csv_text(model["table"]))
+        f.write(csv_text(model["table"], variant))
     tracer.reset()
     out = io.StringIO()
     obs = []
